@@ -629,6 +629,160 @@ func ordConnRaceRun(sc *ordScenario) (row ordRow) {
 	return
 }
 
+// ------------------------------------------------------------------ receiver with two concurrent deliverers
+//
+// Two transports of one Engine.IO socket can call OnPacket at the same time (upgrade window).  The
+// real client Manager (not connected to anything) is fed through the verif export VerifDeliver by
+// two goroutines: deliverer 0 hands over payloads of 1..4 WHOLE packets with 1..4 attachments (a
+// polling response), deliverer 1 single-frame plain events one per call (websocket messages) or, in
+// every second scenario, payloads of whole binary packets too.  Handlers check their arguments.
+func ordRecvRun(sc *ordScenario) (row ordRow) {
+	t0 := time.Now()
+	row = ordRow{Mode: "recv", Dir: "recv", Transport: "two-deliverers", N: 2, Seed: sc.seed}
+	defer func() { row.Ms = time.Since(t0).Milliseconds() }()
+	r := vk.NewRand(sc.seed)
+	bothBatched := r.Intn(2) == 0
+	nA, nB := 100+r.Intn(100), 200+r.Intn(200)
+	if bothBatched {
+		nB = 100 + r.Intn(100)
+	}
+	row.Bursts = []int{nA, nB}
+	atts := [][]int{make([]int, nA), make([]int, nB)}
+	for s := range atts[0] {
+		atts[0][s] = 1 + r.Intn(4)
+	}
+	if bothBatched {
+		for s := range atts[1] {
+			atts[1][s] = 1 + r.Intn(4)
+		}
+	}
+	row.AttCounts = atts
+	sc.n, sc.bursts, sc.atts = 2, row.Bursts, atts
+	payloads := ordPayloads(sc)
+
+	m := sio.NewManager("http://127.0.0.1:9", &sio.ManagerConfig{NoReconnection: true})
+	sock := m.Socket("/", nil)
+	var mu sync.Mutex
+	var entries [][2]int
+	var count, corrupt int32
+	for k := 0; k <= 4; k++ {
+		k := k
+		check := func(e, s int, got ...sio.Binary) {
+			ok := e >= 0 && e < 2 && s >= 0 && s < sc.bursts[e] && len(payloads[e][s]) == k
+			if ok {
+				for i := range got {
+					if string(got[i]) != string(payloads[e][s][i]) {
+						ok = false
+					}
+				}
+			}
+			if !ok {
+				atomic.AddInt32(&corrupt, 1)
+			}
+			mu.Lock()
+			entries = append(entries, [2]int{e, s})
+			mu.Unlock()
+			atomic.AddInt32(&count, 1)
+		}
+		var h any
+		switch k {
+		case 0:
+			h = func(e, s int) { check(e, s) }
+		case 1:
+			h = func(e, s int, a sio.Binary) { check(e, s, a) }
+		case 2:
+			h = func(e, s int, a, b sio.Binary) { check(e, s, a, b) }
+		case 3:
+			h = func(e, s int, a, b, c sio.Binary) { check(e, s, a, b, c) }
+		default:
+			h = func(e, s int, a, b, c, d sio.Binary) { check(e, s, a, b, c, d) }
+		}
+		sock.OnEvent(fmt.Sprintf("e%d", k), h)
+	}
+	connected := make(chan struct{}, 1)
+	sock.OnConnect(func() {
+		select {
+		case connected <- struct{}{}:
+		default:
+		}
+	})
+	var merr atomic.Value
+	m.OnError(func(err error) { merr.Store(err.Error()) })
+	msg := func(bin bool, data []byte) *eioparser.Packet {
+		p, _ := eioparser.NewPacket(eioparser.PacketTypeMessage, bin, data)
+		return p
+	}
+	sio.VerifDeliver(m, msg(false, []byte(`0{"sid":"ordRecv00000000000001"}`)))
+	select {
+	case <-connected:
+	case <-time.After(5 * time.Second):
+		row.EnvErr = "the detached client socket did not process the CONNECT packet"
+		return
+	}
+	// the calls of each deliverer
+	calls := make([][][]*eioparser.Packet, 2)
+	enc := jsonparser.NewCreator(0, stdjson.New())()
+	for e := 0; e < 2; e++ {
+		var cur []*eioparser.Packet
+		left := 0
+		for s := 0; s < sc.bursts[e]; s++ {
+			at := payloads[e][s]
+			cp := make([]any, 0, 3+len(at))
+			cp = append(cp, fmt.Sprintf("e%d", len(at)), e, s)
+			for _, a := range at {
+				cp = append(cp, sio.Binary(append([]byte(nil), a...)))
+			}
+			h := &parser.PacketHeader{Type: parser.PacketTypeEvent, Namespace: "/"}
+			bufs, err := enc.Encode(h, &cp)
+			if err != nil {
+				row.EnvErr = "reference encode: " + err.Error()
+				return
+			}
+			if left == 0 {
+				if cur != nil {
+					calls[e] = append(calls[e], cur)
+				}
+				cur = nil
+				left = 1 + r.Intn(4)
+			}
+			cur = append(cur, msg(false, bufs[0]))
+			for _, b := range bufs[1:] {
+				cur = append(cur, msg(true, b))
+			}
+			left--
+		}
+		if cur != nil {
+			calls[e] = append(calls[e], cur)
+		}
+	}
+	var wg sync.WaitGroup
+	start := make(chan struct{})
+	for e := 0; e < 2; e++ {
+		wg.Add(1)
+		go func(e int) {
+			defer wg.Done()
+			<-start
+			for _, c := range calls[e] {
+				sio.VerifDeliver(m, c...)
+			}
+		}(e)
+	}
+	close(start)
+	wg.Wait()
+	total := nA + nB
+	row.Complete = ordWaitFor(func() bool { return int(atomic.LoadInt32(&count)) >= total }, 5*time.Second)
+	time.Sleep(20 * time.Millisecond)
+	mu.Lock()
+	row.Entries = append([][2]int(nil), entries...)
+	mu.Unlock()
+	row.Inv = int(atomic.LoadInt32(&corrupt)) // recv mode: number of handler entries with wrong arguments
+	if v := merr.Load(); v != nil {
+		row.ParseErr = v.(string)
+	}
+	m.Close()
+	return
+}
+
 // ------------------------------------------------------------------ handler rig
 
 func ordHandlerFor(k int, record func(e, s int)) any {
@@ -878,6 +1032,8 @@ func ordMain(args []string) error {
 					rows[i] = ordWireRun(sc)
 				} else if *mode == "connrace" {
 					rows[i] = ordConnRaceRun(sc)
+				} else if *mode == "recv" {
+					rows[i] = ordRecvRun(sc)
 				} else {
 					rows[i] = ordHandlerRun(sc)
 				}
